@@ -106,10 +106,10 @@ def one(ctx, case, reqs, meta):
                 ths = c['thresholds']
                 if prev_thr is not None:
                     ths = [min(t, prev_thr * 0.95) * (0.9 ** i) for i, t in enumerate(ths)]
-                res = with_timeout(120, lambda: smc.sample(case['n'], thresholds=list(ths), bar=False))
+                res = with_timeout(120, lambda: smc.sample(case['n'], list(ths), bar=False) if case['seed'] % 3 == 0 else smc.sample(case['n'], thresholds=list(ths), bar=False))     # positionally, too
                 c['used_thresholds'] = list(ths)
             else:
-                res = with_timeout(120, lambda: smc.sample(case['n'], quantiles=list(c['quantiles']), bar=False))
+                res = with_timeout(120, lambda: smc.sample(case['n'], None, list(c['quantiles']), bar=False) if case['seed'] % 3 == 0 else smc.sample(case['n'], quantiles=list(c['quantiles']), bar=False))
             pops = res.populations
             prev_thr = float(pops[-1].threshold)
             c['in_force'] = [None if t is None else float(t) for t in smc.objective['thresholds']]
